@@ -19,6 +19,12 @@ CLAIMED = {
         technique=TECH + ": schedule = sibling order of the retry work-list, fault = unresolved forward reference; all n! schedules for n<=5, seeded sampling above; geometry-equality oracle against the fault-free schedule",
         design="DESIGN.md §4 C10",
     ),
+    "C14": dict(
+        text="PARTIAL (clauses b and c only). Exactly-once: the hidden state is the position of the document PRNG; randint(0,999999) beacons / random() are placed at 14 attribute sites of the element pipeline, inside loops (fixed or random count), ifs, groups, reuse attributes and specs-template bodies, with API seeds and <config seed> reseeding; every printed value must equal a reference Pcg32 stream (same rand_pcg crate) stepped once per occurrence per rendered element. Fail-on-malformed: 8 malformed-expression kinds x 16 sites x 5 neighbourhoods (alone / beside / inside / after elements that need a retry) must fail the transform - the retry protocol must not turn an error into success. Clause (a), arithmetic semantics of a pure evaluator, is NOT decided by this technique.",
+        note="At most one random occurrence per element (attribute evaluation order inside one element is not constrained). <specs> content is not a rendered element. The hook's draw counter is diagnostic only (rolled-back draws are legitimate).",
+        technique=TECH + ": PRNG stream position as hidden state, reference-stream conformance oracle; malformed expressions as faults placed around the retry protocol (partial: arithmetic semantics not covered)",
+        design="DESIGN.md §4 C14",
+    ),
     "C15": dict(
         text="Scoped programs (g / reuse-of-specs-template / loop / if / var with parallel assignment / probes) are rendered twice: 'back' (anchors first: fault-free) and 'fwd' (anchors last: forward references inside scoped constructs fail between scope push and pop and are re-evaluated by the retry work-list). Probe outputs of both variants must equal an executable lexical-scoping reference model. Seeded exploration over program shapes and fault placements.",
         note="Only g and reuse introduce scopes (loop/if bodies run in the enclosing scope, documented behaviour). Programs whose stored values would contain '$' leave the model and are skipped (counted). Two genuine, unrepaired design-level defects are listed in known_findings.json under their own program classes.",
@@ -52,7 +58,6 @@ NOT_APPLICABLE = {
 PENDING = {
     "C01": "check under construction in this session (planned: claimed, see DESIGN.md §4); not claimed until the engine is committed",
     "C07": "check under construction in this session (planned: claimed, see DESIGN.md §4); not claimed until the engine is committed",
-    "C14": "check under construction in this session (planned: claimed, see DESIGN.md §4); not claimed until the engine is committed",
 }
 
 def main():
